@@ -211,7 +211,15 @@ const (
 	opReset                 // head reset with an unchanged state
 	opPrice                 // SetGasPrice(p)
 	opJournal               // write the local journal, stop, start a new pool that loads it
+	opAsync                 // a coalesced round: several critical sections, then ONE merged reorg run
 )
+
+// asyncStep is one critical section of a coalesced round.
+type asyncStep struct {
+	toks  []*token
+	local bool
+	head  *opDef // a head change (chain changed first, reset request merged into the round)
+}
 
 type opDef struct {
 	id      int
@@ -221,6 +229,7 @@ type opDef struct {
 	k       int
 	name    string
 	reduced bool // member of the reduced alphabet
+	steps   []asyncStep
 }
 
 var ops []*opDef
@@ -268,23 +277,45 @@ func submitOp(kind opKind, reduced bool, names ...string) *opDef {
 	return addOp(o)
 }
 
+// reducedAlphabet is the pruned alphabet of the deepest levels (quick depth 3..4, thorough depth 4..5).
+// Pruning rule: keep one representative of every behaviour class, chosen so that the classes still
+// collide with each other on the same (sender, nonce) places:
+//   - remote singles: A with all four nonces at price 1 plus the prices that decide a replacement
+//     (A0p2, A0p100, A1p100); B with nonces 0..2 at price 1 and one expensive B0p100; L once as a
+//     remote sender (L0p1, later migrated to local);
+//   - AddLocal: L0..L2 at price 1 and L1p100 (local queue beyond the per-account cap, local replacement);
+//   - one big-gas token (A0p1g: same-price replacement, victim of the gas-limit drop), one
+//     unaffordable and one over-gas token (always rejected); the other pure-rejection tokens
+//     (wrong chain id, oversized, gas below intrinsic, bump boundary 105/110) cannot change the state
+//     and are judged in every state of the shallower full-alphabet levels only;
+//   - batches only where they reach a limit in fewer steps than singles or exercise a batch-only
+//     path (two senders in one reorg run, replacement inside the batch);
+//   - head changes: A mined to 1 and 2, L mined to 1, balance of A and of L lowered, gas limit
+//     lowered, unchanged reset; SetGasPrice(1|2|100); journal.
+var reducedAlphabet = []string{
+	"R(A0p1)", "R(A1p1)", "R(A2p1)", "R(A3p1)", "R(A0p2)", "R(A0p100)", "R(A1p100)",
+	"R(B0p1)", "R(B1p1)", "R(B2p1)", "R(B0p100)", "R(L0p1)",
+	"L(L0p1)", "L(L1p1)", "L(L2p1)", "L(L1p100)",
+	"R(A0p1g)", "R(A1p2$)", "R(A1p2G)",
+	"R[A0p1,A1p1]", "R[A2p1,A3p1]", "R[B0p1,B1p1]", "R[B0p100,B1p100]", "R[A1p1,B1p1]", "R[A0p1,A0p2]",
+	"L[L0p1,L1p1]", "L[L2p1,L3p1]",
+	"mine(A,1)", "mine(A,2)", "mine(L,1)", "ballow(A)", "ballow(L)", "gaslow", "reset",
+	"price(1)", "price(2)", "price(100)",
+	"journal",
+}
+
 // initOps builds the full alphabet and marks the reduced one.
 //
-// Full alphabet (thorough; quick up to depth 3):
-//   - AddRemotesSync([t]) for every token of the universe that is not a pure-rejection duplicate:
-//     plain tokens: all 3 senders x nonce 0..3 x price {1,2,100}; big-gas tokens: nonce 0..1 x price {1,2};
-//     unaffordable / over-gas tokens (rejected whatever the pool holds): one per sender (nonce 1, price 2);
-//     the two bump-boundary tokens; wrong chain id, oversized, gas below intrinsic: one each
+// Full alphabet:
+//   - AddRemotesSync([t]) for: plain tokens of all 3 senders x nonce 0..3 x price {1,2,100}; big-gas
+//     tokens nonce 0..1 x price {1,2}; one unaffordable and one over-gas token per sender; the two
+//     bump-boundary tokens; wrong chain id, oversized, gas below intrinsic
 //   - AddLocal(t) for every such token of sender L and for A's nonce 0..1 tokens (A can become local)
-//   - 2-element batches (see below), AddLocals 2-batches for L
-//   - head resets, SetGasPrice(1|2|100), journal
-//
-// Reduced alphabet (quick depth 4, thorough depth 5), pruning rule: drop what cannot produce a state
-// or a verdict that a kept token does not also produce one level earlier: price 2 is kept only where
-// it decides a replacement (nonce 0 and 1 of A, nonce 0 of L and B); B loses nonce 3; big-gas tokens
-// are kept for nonce 0 at price 1 only (same-price replacement, gas-limit lowering); pure-rejection
-// tokens are kept once (sender A); AddLocal only for L; batches are kept where they reach a limit
-// in fewer steps than singles.
+//   - 2-element batches: consecutive nonces of one sender at one price (remote for A, B and L,
+//     AddLocals for L), two senders in one batch, gap filled / replacement / underpriced replacement /
+//     exact duplicate / rejected-before-the-lock element inside a batch
+//   - head resets (state nonce of a sender advanced, balance lowered, gas limit lowered, unchanged),
+//     SetGasPrice(1|2|100), journal
 func initOps() {
 	// ---- single submissions
 	for s := 0; s < NS; s++ {
@@ -292,89 +323,157 @@ func initOps() {
 		for n := 0; n < 4; n++ {
 			for _, p := range prices {
 				name := fmt.Sprintf("%s%dp%d", S, n, p)
-				red := true
-				if p == 2 && !((s == 1 && n <= 1) || n == 0) {
-					red = false
-				}
-				if s == 2 && n == 3 {
-					red = false
-				}
-				submitOp(opRemote, red, name)
+				submitOp(opRemote, false, name)
 				if s == 0 {
-					submitOp(opLocal, red && p != 2, name)
+					submitOp(opLocal, false, name)
 				}
 				if s == 1 && n <= 1 {
 					submitOp(opLocal, false, name)
 				}
 				if n <= 1 && p != 100 {
-					submitOp(opRemote, n == 0 && p == 1, name+"g")
+					submitOp(opRemote, false, name+"g")
 					if s == 0 {
 						submitOp(opLocal, false, name+"g")
 					}
 				}
 			}
 		}
-		submitOp(opRemote, s == 1, S+"1p2$")
-		submitOp(opRemote, s == 1, S+"1p2G")
+		submitOp(opRemote, false, S+"1p2$")
+		submitOp(opRemote, false, S+"1p2G")
 	}
 	submitOp(opLocal, false, "L1p2$")
 	submitOp(opLocal, false, "L1p2G")
-	submitOp(opRemote, true, "A0p105")
-	submitOp(opRemote, true, "A0p110")
-	submitOp(opRemote, true, "A0p2@chain7")
+	submitOp(opRemote, false, "A0p105")
+	submitOp(opRemote, false, "A0p110")
+	submitOp(opRemote, false, "A0p2@chain7")
 	submitOp(opLocal, false, "A0p2@chain7")
-	submitOp(opRemote, true, "A0p2+big")
-	submitOp(opRemote, true, "A0p2-lowgas")
+	submitOp(opRemote, false, "A0p2+big")
+	submitOp(opRemote, false, "A0p2-lowgas")
 
 	// ---- 2-element batches
 	for s := 1; s < NS; s++ { // remote batches of consecutive nonces, same price
 		S := senderNames[s]
 		for n := 0; n < 3; n++ {
 			for _, p := range []int64{1, 100} {
-				red := p == 1 || n == 0
-				if s == 2 && n == 2 {
-					red = false
-				}
-				submitOp(opRemote, red, fmt.Sprintf("%s%dp%d", S, n, p), fmt.Sprintf("%s%dp%d", S, n+1, p))
+				submitOp(opRemote, false, fmt.Sprintf("%s%dp%d", S, n, p), fmt.Sprintf("%s%dp%d", S, n+1, p))
 			}
 		}
 	}
 	for n := 0; n < 3; n++ {
-		submitOp(opLocal, n != 1, fmt.Sprintf("L%dp1", n), fmt.Sprintf("L%dp1", n+1))
+		submitOp(opLocal, false, fmt.Sprintf("L%dp1", n), fmt.Sprintf("L%dp1", n+1))
 		submitOp(opRemote, false, fmt.Sprintf("L%dp1", n), fmt.Sprintf("L%dp1", n+1))
 	}
-	submitOp(opRemote, true, "A0p1", "B0p1")   // two senders promoted in one reorg run
-	submitOp(opRemote, true, "A1p1", "B1p1")   // two senders queued in one reorg run (heartbeat order)
-	submitOp(opRemote, true, "B1p100", "A1p1") // the same with the other order and different prices
-	submitOp(opRemote, true, "A1p1", "A0p1")   // gap filled inside the batch
-	submitOp(opRemote, true, "A0p1", "A0p2")   // replacement inside the batch
-	submitOp(opRemote, true, "A0p2", "A0p1")   // underpriced replacement inside the batch
-	submitOp(opRemote, true, "A0p1", "A0p1")   // exact duplicate inside the batch
-	submitOp(opRemote, true, "A0p2@chain7", "A0p1") // rejected before the lock + accepted: error slots
+	submitOp(opRemote, false, "A0p1", "B0p1")        // two senders promoted in one reorg run
+	submitOp(opRemote, false, "A1p1", "B1p1")        // two senders queued in one reorg run (heartbeat order)
+	submitOp(opRemote, false, "B1p100", "A1p1")      // the same with the other order and different prices
+	submitOp(opRemote, false, "A1p1", "A0p1")        // gap filled inside the batch
+	submitOp(opRemote, false, "A0p1", "A0p2")        // replacement inside the batch
+	submitOp(opRemote, false, "A0p2", "A0p1")        // underpriced replacement inside the batch
+	submitOp(opRemote, false, "A0p1", "A0p1")        // exact duplicate inside the batch
+	submitOp(opRemote, false, "A0p2@chain7", "A0p1") // rejected before the lock + accepted: error slots
 	submitOp(opRemote, false, "A0p1", "A0p2@chain7")
 	submitOp(opRemote, false, "A0p1g", "A0p1") // same price, different hash
 	submitOp(opRemote, false, "A1p2$", "A0p1")
 	submitOp(opRemote, false, "L0p1", "A0p1")
 	submitOp(opLocal, false, "L0p1", "A0p1") // AddLocals makes both senders local
 	submitOp(opRemote, false, "A2p1", "B2p100")
+	submitOp(opRemote, false, "A3p1", "B3p1") // used by the seeds: two gapped transactions
+	submitOp(opRemote, false, "A3p1", "B3p100")
 
 	// ---- head resets
 	for _, sk := range [][2]int{{1, 1}, {1, 2}, {1, 3}, {0, 1}, {0, 2}, {2, 1}, {2, 2}} {
 		s, k := sk[0], sk[1]
-		red := !(s == 2 && k == 2) && !(s == 0 && k == 2)
-		addOp(&opDef{kind: opMine, s: s, k: k, name: fmt.Sprintf("mine(%s,%d)", senderNames[s], k), reduced: red})
+		addOp(&opDef{kind: opMine, s: s, k: k, name: fmt.Sprintf("mine(%s,%d)", senderNames[s], k)})
 	}
 	for s := 0; s < NS; s++ {
-		addOp(&opDef{kind: opBalLow, s: s, name: fmt.Sprintf("ballow(%s)", senderNames[s]), reduced: s != 2})
+		addOp(&opDef{kind: opBalLow, s: s, name: fmt.Sprintf("ballow(%s)", senderNames[s])})
 	}
-	addOp(&opDef{kind: opGasLow, name: "gaslow", reduced: true})
-	addOp(&opDef{kind: opReset, name: "reset", reduced: true})
+	addOp(&opDef{kind: opGasLow, name: "gaslow"})
+	addOp(&opDef{kind: opReset, name: "reset"})
 	// ---- gas price
 	for _, p := range prices {
-		addOp(&opDef{kind: opPrice, k: int(p), name: fmt.Sprintf("price(%d)", p), reduced: true})
+		addOp(&opDef{kind: opPrice, k: int(p), name: fmt.Sprintf("price(%d)", p)})
 	}
 	// ---- journal
-	addOp(&opDef{kind: opJournal, name: "journal", reduced: true})
+	addOp(&opDef{kind: opJournal, name: "journal"})
+
+	for _, n := range reducedAlphabet {
+		o := opByName[n]
+		if o == nil {
+			panic("reduced alphabet: unknown op " + n)
+		}
+		o.reduced = true
+	}
+}
+
+// asyncOps: coalesced rounds (DESIGN.md C17, "asynchrony"). All pool state is guarded by pool.mu, so
+// a concurrent run is an interleaving of critical sections. The rounds driven here are the ones the
+// synchronous entry points can never produce: while a reorg run is in flight (launched with a stale,
+// empty account set and blocked on the lock), two submissions' locked sections and optionally a head
+// reset request execute; the real scheduleReorgLoop merges their requests into one following run.
+// Alphabet: ordered pairs of distinct sub-batches, x {no head change, A mined to 1 requested after
+// both, A's balance lowered requested between them}.
+var asyncOps []*opDef
+
+var asyncBatches = []struct {
+	local bool
+	names []string
+}{
+	{false, []string{"A0p1"}}, {false, []string{"A1p1"}}, {false, []string{"A2p1", "A3p1"}},
+	{false, []string{"B0p1", "B1p1"}}, {false, []string{"B0p100"}}, {false, []string{"B1p1", "B2p1"}},
+	{true, []string{"L0p1"}}, {true, []string{"L1p1", "L2p1"}},
+	{false, []string{"A0p2"}}, {false, []string{"A1p100"}},
+}
+
+func initAsyncOps() {
+	stepOf := func(i int) (asyncStep, string) {
+		b := asyncBatches[i]
+		st := asyncStep{local: b.local}
+		n := "R["
+		if b.local {
+			n = "L["
+		}
+		for j, x := range b.names {
+			st.toks = append(st.toks, tk(x))
+			if j > 0 {
+				n += ","
+			}
+			n += x
+		}
+		return st, n + "]"
+	}
+	for i := range asyncBatches {
+		for j := range asyncBatches {
+			if i == j {
+				continue
+			}
+			s1, n1 := stepOf(i)
+			s2, n2 := stepOf(j)
+			for v := 0; v < 3; v++ {
+				o := &opDef{kind: opAsync}
+				switch v {
+				case 0:
+					o.steps = []asyncStep{s1, s2}
+					o.name = "async{" + n1 + "|" + n2 + "}"
+				case 1:
+					h := opByName["mine(A,1)"]
+					o.steps = []asyncStep{s1, s2, {head: h}}
+					o.name = "async{" + n1 + "|" + n2 + "|" + h.name + "}"
+				case 2:
+					h := opByName["ballow(A)"]
+					o.steps = []asyncStep{s1, {head: h}, s2}
+					o.name = "async{" + n1 + "|" + h.name + "|" + n2 + "}"
+				}
+				for _, st := range o.steps {
+					o.toks = append(o.toks, st.toks...)
+				}
+				o.id = len(ops)
+				ops = append(ops, o)
+				opByName[o.name] = o
+				asyncOps = append(asyncOps, o)
+			}
+		}
+	}
 }
 
 // enabled tells whether the operation is defined in chain state c (head changes are monotone so that
@@ -387,6 +486,12 @@ func (o *opDef) enabled(c chainState) bool {
 		return !c.BalLow[o.s]
 	case opGasLow:
 		return !c.GasLow
+	case opAsync:
+		for _, st := range o.steps {
+			if st.head != nil && !st.head.enabled(c) {
+				return false
+			}
+		}
 	}
 	return true
 }
